@@ -27,6 +27,12 @@ Proof.
   destruct (out_of_bounds c p), (c_torus c); cbn [negb]; split_ifs.
 Qed.
 
+Lemma torus_adj_2d_bridge c p : torus_adj_2d c p = gen_torus_adj_2d (c_w c) (c_h c) p.
+Proof.
+  unfold torus_adj_2d, gen_torus_adj_2d. destruct p as [x y]. cbn [fst snd].
+  f_equal; try reflexivity; lia.
+Qed.
+
 Lemma dist2_bridge c p q : dist2 c p q = gen_distance_squared (c_w c) (c_h c) (c_torus c) p q.
 Proof.
   unfold dist2, axis_dist, gen_distance_squared. destruct p as [px py], q as [qx qy]. cbn [fst snd].
